@@ -98,3 +98,53 @@ Fixpoint unesc (fuel : nat) (s : list N) : ures :=
   end.
 
 Definition unescape (s : list N) : ures := unesc (S (length s)) s.
+
+(* ---------- import: one attribute, and the attribute list of an element ----------
+   hwloc__nolibxml_import_next_attr on the attribute buffer of an element (find_child
+   has replaced the closing angle bracket, or slash and bracket, by NUL): skip blanks, the name is the longest
+   prefix over [a-z_], then an equal sign and a double quote, the unescaped value, and
+   the blanks after the closing quote.  None = return -1 (also how the end of the list is reported). *)
+Definition is_blank (c : N) : bool := (c =? 32) || (c =? 9) || (c =? 10) || (c =? 13).
+Definition is_attr_name_char (c : N) : bool := ((97 <=? c) && (c <=? 122)) || (c =? 95).
+
+Fixpoint skip_blanks (s : list N) : list N :=
+  match s with c :: tl => if is_blank c then skip_blanks tl else s | [] => [] end.
+Fixpoint span_name (s : list N) : list N * list N :=
+  match s with
+  | c :: tl => if is_attr_name_char c then let (n, r) := span_name tl in (c :: n, r) else ([], s)
+  | [] => ([], [])
+  end.
+
+Definition next_attr (s : list N) : option (list N * list N * list N) :=
+  let (name, s2) := span_name (skip_blanks s) in
+  match s2 with
+  | 61 :: 34 :: s3 =>
+      match unescape s3 with
+      | UOk v rest => Some (name, v, skip_blanks rest)
+      | _ => None
+      end
+  | _ => None
+  end.
+
+(* the caller's loop: while (next_attr(...) >= 0) *)
+Fixpoint parse_attrs (fuel : nat) (s : list N) : list (list N * list N) :=
+  match fuel with
+  | O => []
+  | S f => match next_attr s with
+           | Some (n, v, rest) => (n, v) :: parse_attrs f rest
+           | None => []
+           end
+  end.
+
+(* ---------- import: element content (hwloc__nolibxml_import_get_content, element not auto-closed) ----------
+   the content ends at the next '<'; its length must be the expected one; it is NOT unescaped *)
+Fixpoint before_lt (s : list N) : option (list N) :=
+  match s with
+  | [] => None                                        (* strchr reaches the NUL: return -1 *)
+  | c :: tl => if c =? 0 then None else if c =? 60 then Some [] else option_map (cons c) (before_lt tl)
+  end.
+Definition get_content (buffer : list N) (expected_length : N) : option (list N) :=
+  match before_lt buffer with
+  | Some c => if N.of_nat (length c) =? expected_length then Some c else None
+  | None => None
+  end.
